@@ -71,7 +71,7 @@ func checkConsensus(c Case) error {
 	err := validate(types.SatisfiedPolicy{Policy: presented, Signatures: sigs, Preimages: pres})
 	if (err == nil) != want {
 		return stats.Failf("C14/consensus-verdict", "ValidateV2Transaction err=%v, reference accepted=%v: policy %s height=%d time=%d witnesses %s [%s]",
-			err, want, root, c.H, c.T, witnessText(&c), c.Tag)
+			err, want, short(root), c.H, c.T, witnessText(&c), c.Tag)
 	}
 	if err == nil {
 		// the same satisfied policy cannot spend an output locked to another address
@@ -79,12 +79,12 @@ func checkConsensus(c Case) error {
 		other[7] ^= 0x10
 		_, validate2 := spendVia(cs, other, types.SatisfiedPolicy{})
 		if validate2(types.SatisfiedPolicy{Policy: presented, Signatures: sigs, Preimages: pres}) == nil {
-			return stats.Failf("C14/consensus-address", "policy %s spent an output locked to a different address", root)
+			return stats.Failf("C14/consensus-address", "policy %s spent an output locked to a different address", short(root))
 		}
 		// and a trivially satisfiable policy cannot stand in for the committed one
 		if any := types.AnyoneCanSpend(); addr != refAddress(&Node{K: "th"}, nil) {
 			if validate(types.SatisfiedPolicy{Policy: any}) == nil {
-				return stats.Failf("C14/consensus-address", "AnyoneCanSpend accepted for the address of %s", root)
+				return stats.Failf("C14/consensus-address", "AnyoneCanSpend accepted for the address of %s", short(root))
 			}
 		}
 		rec.Label("consensus:address-binding-checked")
